@@ -6,7 +6,7 @@ package geom
 // pointer is modelled as a typed reference with a dynamic-type ghost tag
 // dyn(region); the zero value (nil pointer, type 0) is a valid Geometry.
 
-//@ prop C20
+//@ prop C20,C10
 
 // ---- type invariants (C16: one coordinate type, carried by every member) ----
 //@ pred PtInv(p) = p.coords.Type < 4
@@ -122,7 +122,7 @@ package geom
 
 // every function of the seven concrete types, the sequence layer and the
 // constructors: safety sweep + type invariants on every result
-//@ prop C16,C20
+//@ prop C16,C20,C10
 //@ sweep /type_point.go -String -Scan -Summary -Value
 //@ sweep /type_line_string.go -String -Scan -Summary -Value
 //@ sweep /type_polygon.go -String -Scan -Summary -Value
